@@ -1,12 +1,136 @@
 /-
-Driver operations for the Auth model (line protocol). Core Lean only.
+Driver operations for the Auth model (line protocol, C09 / C10). Core Lean only.
 `handle st words` returns `none` when the first word is not one of this module's operations.
+
+All operations start with the word `tok`. Arbitrary strings (headers with spaces, empty
+values, …) travel as one word `x<hex of the UTF-8 bytes>` (`x` alone = empty string).
+
+  tok cfg <xADMIN> <0|1>            set admin token and use_auth, empty the table       -> ok
+  tok create <xT>                   effect of an admin-authorised POST /api/v1/access    -> ok
+  tok revoke <xT>                   effect of an admin-authorised DELETE /access/<T>     -> ok
+  tok acreate <xHDR> <xT>           POST /api/v1/access with header HDR, generator value T -> decision
+  tok arevoke <xHDR> <xT>           DELETE /api/v1/access/<T> with header HDR            -> decision
+  tok auth <xHDR>                   ordinary API route                                   -> decision
+  tok authadmin <xHDR>              RequireAdmin route                                   -> decision
+  tok ws <xT>                       websocket connect handshake                          -> connected | rejected
+  tok restart                                                                            -> ok
+  tok dump                          table as sorted hex words                            -> x.. x.. | -
+  tok routes <a><p><m>              regenerated routing table of a configuration         -> METHOD path|…
+  tok wrapped <a><p><m>             routes ending in the RequireAdmin closure            -> METHOD path|… | -
+  tok req <a><p><m> <METHOD> <xPATH> <xHDR>   a request to a registered route pattern    -> noroute | outside <kind> | decision
+decision = 401 <bhserrors code> | pass open | pass user | pass admin
 -/
+import BHS.Model.Auth
+import BHS.Gen.Routes
+
 namespace Driver.Ops.Auth
+open BHS BHS.Model.Auth
 
 structure S where
-  unit : Unit := ()
+  sys : Sys := ⟨⟨"", false⟩, []⟩
 
-def handle (_st : S) (_ws : List String) : Option (S × String) := none
+def hexVal (c : Char) : Option Nat :=
+  if '0' ≤ c ∧ c ≤ '9' then some (c.toNat - '0'.toNat)
+  else if 'a' ≤ c ∧ c ≤ 'f' then some (c.toNat - 'a'.toNat + 10)
+  else if 'A' ≤ c ∧ c ≤ 'F' then some (c.toNat - 'A'.toNat + 10)
+  else none
+
+def unhexBytes : List Char → Option (List UInt8)
+  | [] => some []
+  | [_] => none
+  | a :: b :: rest => do
+    let x ← hexVal a
+    let y ← hexVal b
+    let r ← unhexBytes rest
+    pure (UInt8.ofNat (16 * x + y) :: r)
+
+/-- `x<hex>` → string; `none` on bad hex or invalid UTF-8 (outside the model) -/
+def decodeWord (w : String) : Option String :=
+  match w.toList with
+  | 'x' :: cs => do
+    let bs ← unhexBytes cs
+    String.fromUTF8? (ByteArray.mk bs.toArray)
+  | _ => none
+
+def hexDigit (n : Nat) : Char := if n < 10 then Char.ofNat (48 + n) else Char.ofNat (87 + n)
+
+def encodeWord (s : String) : String :=
+  String.ofList ('x' :: (s.toUTF8.toList.foldr (fun b acc => hexDigit (b.toNat / 16) :: hexDigit (b.toNat % 16) :: acc) []))
+
+def parseCfg (w : String) : Option Cfg :=
+  match w.toList with
+  | [a, p, m] =>
+    let b (c : Char) : Option Bool := if c = '1' then some true else if c = '0' then some false else none
+    do pure ⟨← b a, ← b p, ← b m⟩
+  | _ => none
+
+def lookupCfg (tbl : List (Cfg × List Route)) (c : Cfg) : Option (List Route) :=
+  (tbl.find? (fun row => row.1 == c)).map Prod.snd
+
+def renderRoutes (rs : List Route) : String :=
+  if rs.isEmpty then "-" else "|".intercalate (rs.map (fun r => r.method ++ " " ++ r.path))
+
+def kindName : Kind → String
+  | .api => "api" | .status => "status" | .swagger => "swagger" | .metrics => "metrics"
+  | .pprof => "pprof" | .websocket => "websocket" | .other => "other"
+
+def handleTok (st : S) : List String → Option (S × String)
+  | ["cfg", a, u] => do
+    let adm ← decodeWord a
+    let ua ← (if u = "1" then some true else if u = "0" then some false else none)
+    pure ({ sys := ⟨⟨adm, ua⟩, []⟩ }, "ok")
+  | ["create", t] => do
+    let t ← decodeWord t
+    pure ({ sys := { st.sys with store := insertTok st.sys.store t } }, "ok")
+  | ["revoke", t] => do
+    let t ← decodeWord t
+    pure ({ sys := { st.sys with store := deleteTok st.sys.store t } }, "ok")
+  | ["acreate", h, t] => do
+    let h ← decodeWord h
+    let t ← decodeWord t
+    pure ({ sys := step st.sys (.create h t) }, answer st.sys (.create h t))
+  | ["arevoke", h, t] => do
+    let h ← decodeWord h
+    let t ← decodeWord t
+    pure ({ sys := step st.sys (.revoke h t) }, answer st.sys (.revoke h t))
+  | ["auth", h] => do
+    let h ← decodeWord h
+    pure ({ sys := step st.sys (.auth h) }, answer st.sys (.auth h))
+  | ["authadmin", h] => do
+    let h ← decodeWord h
+    pure (st, (authorize st.sys.env st.sys.store true h).render)
+  | ["ws", t] => do
+    let t ← decodeWord t
+    pure ({ sys := step st.sys (.ws t) }, answer st.sys (.ws t))
+  | ["restart"] => some ({ sys := step st.sys .restart }, answer st.sys .restart)
+  | ["dump"] =>
+    let ws := (st.sys.store.map encodeWord).toArray.qsort (· < ·)
+    some (st, if ws.isEmpty then "-" else " ".intercalate ws.toList)
+  | ["routes", c] => do
+    let c ← parseCfg c
+    let rs ← lookupCfg Gen.routes c
+    pure (st, renderRoutes rs)
+  | ["wrapped", c] => do
+    let c ← parseCfg c
+    let rs ← lookupCfg Gen.adminWrapped c
+    pure (st, renderRoutes rs)
+  | ["req", c, m, p, h] => do
+    let c ← parseCfg c
+    let p ← decodeWord p
+    let h ← decodeWord h
+    let rs ← lookupCfg Gen.routes c
+    let r : Route := ⟨m, p⟩
+    if !rs.contains r then pure (st, "noroute")
+    else if behindAuth r then
+      pure (st, (authorize ⟨st.sys.env.admin, c.useAuth⟩ st.sys.store (adminOnly r) h).render)
+    else pure (st, "outside " ++ kindName (kind r))
+  | _ => none
+
+def handle (st : S) : List String → Option (S × String)
+  | "tok" :: rest =>
+    match handleTok st rest with
+    | some r => some r
+    | none => some (st, "bad-op")
+  | _ => none
 
 end Driver.Ops.Auth
